@@ -104,6 +104,18 @@ Theorem ima_wav_channel_streams : forall b0 b1 b2 b3 b4 b5 b6 b7,
   Isolation.mine 1 (Adpcm.group_codes [[b0; b1; b2; b3]; [b4; b5; b6; b7]]) = flat_map Adpcm.nibbles [b4; b5; b6; b7].
 Proof. intros. exact (conj (AdpcmProofs.group_codes_mono b0 b1 b2 b3) (AdpcmProofs.group_codes_stereo b0 b1 b2 b3 b4 b5 b6 b7)). Qed.
 
+(** ... for a body of any number of groups and any number of channels: channel c's code stream is the concatenation, group by
+    group, of the nibbles (low first) of its own four bytes; and a body is cut into exactly its groups *)
+Theorem ima_wav_channel_stream_any_length : forall (nch c : nat) (groups : list (list Z)),
+  (c < nch)%nat -> Forall (fun g => length g = (4 * nch)%nat) groups ->
+  Isolation.mine (Z.of_nat c) (flat_map (fun grp => Adpcm.group_codes (Adpcm.chunks 4 nch grp)) groups) =
+  flat_map (fun g => flat_map Adpcm.nibbles (firstn 4 (skipn (4 * c) g))) groups.
+Proof. exact AdpcmProofs.body_channel_stream. Qed.
+
+Theorem ima_wav_body_groups : forall (n : nat) (groups : list (list Z)), (0 < n)%nat -> Forall (fun g => length g = n) groups ->
+  forall fuel, (length groups <= fuel)%nat -> Adpcm.chunks n fuel (concat groups) = groups.
+Proof. exact AdpcmProofs.chunks_concat. Qed.
+
 Theorem ms_decoder_step_in_range : forall code s,
   let '(s', o) := Adpcm.ms_step Gen_Adpcm.ms_adaptation_table Gen_Adpcm.ms_coeff1 Gen_Adpcm.ms_coeff2 code s in
   -32768 <= o <= 32767 /\ 16 <= Adpcm.idelta s' <= 32767 /\ Adpcm.s1 s' = o /\ Adpcm.s2 s' = Adpcm.s1 s /\ Adpcm.bp s' = Adpcm.bp s.
@@ -139,3 +151,4 @@ Print Assumptions ima_decoder_step_in_range.
 Print Assumptions ima_difference_needs_17_bits.
 Print Assumptions ima_wav_decoder_is_reference.
 Print Assumptions ms_decoder_step_in_range.
+Print Assumptions ima_wav_channel_stream_any_length.
